@@ -86,8 +86,12 @@ fn generate(seed: u64, tier: Tier, em: &mut Emitter) {
             }
         }
     }
+    // every barrier kind on the left and on the right side of a join (run_subplan_par's arms)
+    for (src, steps, parts) in join_side_barrier_cases(&mut rng, tier != Tier::Quick) {
+        emit_pair(em, &src, &steps, parts, &["sweep", "join_side_barrier"]);
+    }
     let mut rng = seed_mix(seed, 0xC01_0002);
-    let count = if tier == Tier::Quick { 1300 } else { 12000 };
+    let count = if tier == Tier::Quick { 1150 } else { 11000 };
     for _ in 0..count {
         let n = gen_len(&mut rng);
         let src = gen_src(&mut rng, n, true, true);
